@@ -94,7 +94,7 @@ fn run(ctx: &mut Ctx) {
 
     let total = ctx.tier.pick(60_000, 600_000);
     let max_ops = ctx.tier.pick(5, 10);
-    let strat = move || case_strategy(&["cased", "cased", "abc", "marks", "digits"], true, W_CASE, max_ops, 4, fix);
+    let strat = move || case_strategy(&["cased", "cased", "abc", "marks", "digits", "fold-s", "fold-sigma", "fold-misc"], true, W_CASE, max_ops, 4, fix);
     ctx.generated("gen", &strat, total, &|s, c, st| {
         count_pool(c, st);
         case_fn(s, c, st)
